@@ -46,6 +46,14 @@ def fact_of(c):
     if form == "intpair":
         arr = numpy.array([[int(v) for v in row] for row in vals], dtype=numpy.int64).reshape(shape)
         return (arr, valid), vals, c["vvalid"]
+    if form in ("dt", "dtpair"):
+        arr = numpy.array([[int(v) for v in row] for row in vals], dtype=numpy.int64).reshape(shape).astype("M8[D]")
+        if form == "dt":
+            arr[~valid] = numpy.datetime64("NaT")
+            return arr, vals, c["vvalid"]
+        hid = numpy.array(c["hidden_nan"], dtype=bool).reshape(shape)
+        arr[~valid & hid] = numpy.datetime64("NaT")
+        return (arr, valid), vals, c["vvalid"]
     arr = numpy.array([[float(v) for v in row] for row in vals], dtype=float).reshape(shape)
     if form == "nan":
         arr[~valid] = numpy.nan
